@@ -10,25 +10,35 @@ package rfc8009
 //@   requires tagof(e) == typeid("crypto.Aes128CtsHmacSha256128") || tagof(e) == typeid("crypto.Aes256CtsHmacSha384192")
 //@   ensures err == nil <==> et_encok(tagof(e), len(key), len(data))
 //@   ensures err == nil ==> len(ct) == et_ctlen(tagof(e), len(data))
+//@   ensures err == nil ==> bytes(ct) == et_E(tagof(e), bytes(key), bytes(data))
 //@ func crypto/rfc8009.DecryptData(key, data, e) (pt, err)
 //@   pure
 //@   trusted_frame returned slices are not tracked as fresh; in-place append into spare capacity cannot be excluded
 //@   requires tagof(e) == typeid("crypto.Aes128CtsHmacSha256128") || tagof(e) == typeid("crypto.Aes256CtsHmacSha384192")
 //@   ensures err == nil <==> et_decok(tagof(e), len(key), len(data))
 //@   ensures err == nil ==> len(pt) == len(data)
+//@   ensures err == nil ==> bytes(pt) == et_D(tagof(e), bytes(key), bytes(data))
 //@   ensures err != nil ==> len(pt) == 0
+// RFC 8009 5 (properties C05, C06): ciphertext = C | HMAC(Ki, IV | C) truncated, C = AES-CTS(Ke, conf | msg), IV zero.
+//@ define dec_ok_8009(t, key, usage, c) := len(c) >= et_confounder(t) + et_hmacbits(t) / 8
+//@     && mac_tail(t, c) == simplified_cksum(t, key, usage_const(usage, 0x55), seqcat(seqzeros(16), seqtrunc(c, len(c) - et_hmacbits(t) / 8)))
 //@ func crypto/rfc8009.DecryptMessage(key, ciphertext, usage, e) (pt, err)
 //@   pure
 //@   trusted_frame returned slices are not tracked as fresh; in-place append into spare capacity cannot be excluded
+//@   requires tagof(e) == typeid("crypto.Aes128CtsHmacSha256128") || tagof(e) == typeid("crypto.Aes256CtsHmacSha384192")
 //@   ensures err != nil ==> len(pt) == 0
+//@   ensures err == nil ==> dec_ok_8009(tagof(e), bytes(key), usage, bytes(ciphertext))
+//@   ensures err == nil ==> bytes(pt) == seqsub(dec_body(tagof(e), bytes(key), usage, bytes(ciphertext)), et_confounder(tagof(e)), len(ciphertext) - et_hmacbits(tagof(e)) / 8)
 //@ func crypto/rfc8009.EncryptMessage(key, message, usage, e) (iv, ct, err)
 //@   pure
 //@   trusted_frame returned slices are not tracked as fresh; in-place append into spare capacity cannot be excluded
 //@   requires tagof(e) == typeid("crypto.Aes128CtsHmacSha256128") || tagof(e) == typeid("crypto.Aes256CtsHmacSha384192")
+//@   ensures err == nil ==> len(lastRandom) == et_confounder(tagof(e)) && bytes(ct) == enc_8009(tagof(e), bytes(key), usage, seqcat(lastRandom, bytes(message)))
 //@ func crypto/rfc8009.VerifyIntegrity(key, ct, usage, e) (ok)
 //@   pure
 //@   requires tagof(e) == typeid("crypto.Aes128CtsHmacSha256128") || tagof(e) == typeid("crypto.Aes256CtsHmacSha384192")
 //@   trusted_frame returned slices are not tracked as fresh; in-place append into spare capacity cannot be excluded
+//@   ensures ok ==> len(ct) >= et_hmacbits(tagof(e)) / 8 && mac_tail(tagof(e), bytes(ct)) == simplified_cksum(tagof(e), bytes(key), usage_const(usage, 0x55), seqcat(seqzeros(16), seqtrunc(bytes(ct), len(ct) - et_hmacbits(tagof(e)) / 8)))
 //@ func crypto/rfc8009.KDF_HMAC_SHA2(protocolKey, label, context, kl, e) (r)
 //@   pure
 //@   trusted_frame returned slices are not tracked as fresh; in-place append into spare capacity cannot be excluded
